@@ -704,3 +704,137 @@ def create_then_rename_folder(rng):
     s.append(["drain"])
     return dict(flavour=fl.key(), base=g.base, schedule=s, hash_mult=rng.choice([1, 3, 7, 11, 2654435761]),
                 mode=dict(origin=None, check_spec=True, no_conflicted=True, cov_every_step=False))
+
+
+# ------------------------------------------------------------------ renames that change only the letter case (C03)
+def _recase(name, rng):
+    """the same name with a different letter case (never the same string)"""
+    alts = [name.upper(), name.capitalize(), name.swapcase(), name.title()]
+    alts = [a for a in alts if a != name and a.lower() == name.lower()]
+    return rng.choice(alts) if alts else None
+
+
+def case_only_rename(rng):
+    """C03 family (one-sided; at least one side is a case-insensitive, case-preserving provider; the acting side has stable
+    ids): the user renames synchronised files and folders to names that differ from the old ones ONLY in letter case,
+    possibly followed or preceded by ordinary changes to the same objects; each rename is bracketed by drains (clean
+    domain), the engine's steps fall anywhere in between.  Names never
+    clash case-insensitively, so the specification (a case-sensitive tree) applies as it stands: the mirror must show the
+    new spelling."""
+    side = rng.choice([0, 1])
+    cands = [f for f in E.ALL_FLAVOURS if not f.oip[side] and not f.oip[1 - side] and (not f.cs[0] or not f.cs[1])]
+    cands += [E.Flavour((False, False), cs, filt) for cs in [(True, False), (False, True)] for filt in (False, True)]
+    fl = rng.choice(cands)
+    g = EC.Gen(rng, fl, [side], 0)
+    d = "/" + rng.choice(["docs", "album", "src"]) + str(rng.randint(1, 9))
+    sub = d + "/" + rng.choice(["sub", "inner", "part"])
+    files = [d + "/" + rng.choice(["report", "notes"]) + str(i) + rng.choice([".txt", "", ".md"]) for i in range(rng.randint(1, 3))]
+    subfile = sub + "/" + rng.choice(["deep", "leaf"]) + ".dat"
+    for p in (d, sub):
+        g.tree[p] = "D"
+        g.base.append(["mkdir", g.abs(0, p)])
+    for p in files + [subfile]:
+        g.tree[p] = "F"
+        g.base.append(["create", g.abs(0, p), g.content()])
+    s = g.sched
+    s.append(["drain"])
+    live = {p: p for p in [d, sub, subfile] + files}      # original -> current relative path
+
+    def cur(p):
+        return live[p]
+
+    def rename_prefix(old, new):
+        for k, v in list(live.items()):
+            if v == old or v.startswith(old + "/"):
+                live[k] = new + v[len(old):]
+    for _ in range(rng.randint(1, 4)):
+        r = rng.random()
+        target = rng.choice([sub, d] + files + [subfile])
+        c = cur(target)
+        if r < 0.65:
+            head, _, leaf = c.rpartition("/")
+            nl = _recase(leaf, rng)
+            if nl is None:
+                continue
+            # clean domain: a rename is bracketed by drains (races of un-drained renames are Stream B's business)
+            s.append(["drain"])
+            s.append(["user", side, ["rename", g.abs(side, c), g.abs(side, head + "/" + nl)]])
+            rename_prefix(c, head + "/" + nl)
+            for _ in range(rng.randint(0, 3)):
+                s.append(rng.choice([["intake", side], ["sync"], ["intake", 1 - side]]))
+            s.append(["drain"])
+            continue
+        elif r < 0.85 and target in files + [subfile]:
+            s.append(["user", side, ["write", g.abs(side, c), g.content()]])
+        else:
+            parent = cur(rng.choice([d, sub]))
+            s.append(["user", side, ["create", g.abs(side, parent + "/" + g.fresh("F")), g.content()]])
+        for _ in range(rng.randint(0, 3)):
+            s.append(rng.choice([["intake", side], ["sync"], ["intake", 1 - side], ["drain"]]))
+    s.append(["drain"])
+    return dict(flavour=fl.key(), base=g.base, schedule=s, hash_mult=rng.choice([1, 3, 7, 11, 2654435761]),
+                mode=dict(origin=side, check_spec=True, no_conflicted=True, cov_every_step=False))
+
+
+# ------------------------------------------------------------------ renames made while stopped, cursor lost (C06)
+def restarts_fallback_rename(rng):
+    """C06 family (one-sided; both sides id-stable, unfiltered): everything is synchronised, the engine is stopped, the
+    user RENAMES synchronised files / folders while it is down (to a fresh name, into another folder, or - when that side
+    is case-insensitive - to the same name in another letter case), optionally edits one, and the new engine starts with
+    the stored cursor removed or rejected, so it falls back to the full walk.  With stable ids the walk sees the same
+    object under its new path: the modification must reach the other side (same outcome as without the stop)."""
+    side = rng.choice([0, 1])
+    cands = [f for f in CLEAN_FLAVOURS if not f.oip[0] and not f.oip[1]]
+    cands += [E.Flavour((False, False), cs, False) for cs in [(True, False), (False, True)]]
+    fl = rng.choice(cands)
+    g = EC.Gen(rng, fl, [side], 0)
+    d1 = "/" + rng.choice(["docs", "album"]) + str(rng.randint(1, 9))
+    d2 = "/" + rng.choice(["work", "misc"]) + str(rng.randint(1, 9))
+    sub = d1 + "/" + rng.choice(["sub", "inner"])
+    files = [rng.choice([d1, d2, sub]) + "/" + rng.choice(["report", "notes", "pic"]) + str(i) + rng.choice([".txt", "", ".md"])
+             for i in range(rng.randint(2, 4))]
+    for p in (d1, d2, sub):
+        g.tree[p] = "D"
+        g.base.append(["mkdir", g.abs(0, p)])
+    for p in files:
+        g.tree[p] = "F"
+        g.base.append(["create", g.abs(0, p), g.content()])
+    s = g.sched
+    s.append(["drain"])
+    if rng.random() < 0.3:
+        s.append(["user", side, ["write", g.abs(side, rng.choice(files)), g.content()]])
+        s.append(["drain"])
+    s.append(["stop"])
+    live = {p: p for p in [d1, d2, sub] + files}
+
+    def rename_prefix(old, new):
+        for k, v in list(live.items()):
+            if v == old or v.startswith(old + "/"):
+                live[k] = new + v[len(old):]
+    for _ in range(rng.randint(1, 3)):
+        target = rng.choice(files + files + [sub, d1])
+        c = live[target]
+        head, _, leaf = c.rpartition("/")
+        r = rng.random()
+        if r < 0.45 and not fl.cs[side]:
+            nl = _recase(leaf, rng)
+            if nl is None:
+                continue
+            new = head + "/" + nl
+        elif r < 0.8 or target not in files:
+            new = head + "/" + g.fresh("D" if target not in files else "F")
+        else:
+            new = live[rng.choice([d1, d2, sub])] + "/" + g.fresh("F")
+        s.append(["user", side, ["rename", g.abs(side, c), g.abs(side, new)]])
+        rename_prefix(c, new)
+        if rng.random() < 0.25:
+            s.append(["user", side, ["write", g.abs(side, live[rng.choice(files)]), g.content()]])
+    s.append(["start", rng.choice(["cursor_removed", "cursor_rejected"])])
+    s += [["intake", 0], ["intake", 1], ["sync"]]
+    s.append(["drain"])
+    if rng.random() < 0.4:
+        s.append(["user", side, ["create", g.abs(side, live[rng.choice([d1, d2, sub])] + "/" + g.fresh("F")), g.content()]])
+        g.engine_noise(0.5)
+        s.append(["drain"])
+    return dict(flavour=fl.key(), base=g.base, schedule=s, hash_mult=rng.choice([1, 3, 7, 11, 2654435761]),
+                mode=dict(origin=side, check_spec=True, no_conflicted=True, cov_every_step=True))
